@@ -22,7 +22,7 @@ LEVEL = "exploration"
 RULE = (
     "1-5 operations from {gatt_read, gatt_read_descriptor, gatt_write(response T/F), gatt_write_descriptor(wait T/F), "
     "start_notify (+stop_notify | remove_callback), device_connect (3 request flavours), device_disconnect, pair, unpair, "
-    "clear_cache, get_services} over addresses {A,B} x handles {1,2} with timeouts 1-3 s, started at even multiples of "
+    "clear_cache, get_services} over addresses {A,B} x handles {0,1,2} with timeouts 1-3 s, started at even multiples of "
     "1/128 s; 0-10 device chunks at odd multiples (never tying with a timer), each 1-3 messages delivered in ONE "
     "data_received call, drawn with probability 1/2 'for a pending operation' (matching response | GATT error | connection "
     "change | same type foreign address | foreign handle | other response kind on the same address+handle) else arbitrary; "
@@ -443,7 +443,7 @@ def _case(draw, tier):
         k = draw(st.sampled_from(OP_KINDS))
         o = {"id": f"op{i}", "kind": k, "addr": draw(st.sampled_from(ADDRS + [A])), "t": 2 * draw(st.integers(1, 200)), "timeout": draw(st.sampled_from([1, 2, 3]))}
         if k in GATT_KINDS:
-            o["handle"] = draw(st.sampled_from([1, 1, 2]))
+            o["handle"] = draw(st.sampled_from([1, 1, 2, 0]))
         if k in ("write", "write_desc"):
             o["response"] = draw(st.integers(0, 3)) != 0
         if k == "notify":
@@ -487,20 +487,20 @@ def _message(draw, ops):
         if variant == "match":
             m = {"k": own, "addr": a, "handle": h}
         elif variant == "gatterr":
-            m = {"k": "gatterr", "addr": a, "handle": draw(st.sampled_from([h, h, other_h])), "error": err}
+            m = {"k": "gatterr", "addr": a, "handle": draw(st.sampled_from([h, h, other_h, 0])), "error": err}
         elif variant == "conn":
             m = {"k": "conn", "addr": draw(st.sampled_from([a, a, other_a])), "connected": draw(st.booleans()), "mtu": 23, "error": err}
         elif variant == "foreign_addr":
             m = {"k": own, "addr": other_a, "handle": h}
         elif variant == "foreign_handle":
-            m = {"k": own, "addr": a, "handle": other_h}
+            m = {"k": own, "addr": a, "handle": draw(st.sampled_from([other_h, 0]))}
         elif variant == "other_kind":
             m = {"k": draw(st.sampled_from(["read", "write", "notify", "pair", "unpair", "clear", "svcdone"])), "addr": a, "handle": h}
         else:
             m = {"k": "data", "addr": a, "handle": draw(st.sampled_from([h, other_h])), "data": draw(st.sampled_from(["", "aa", "0102"]))}
     else:
         k = draw(st.sampled_from(["read", "write", "notify", "gatterr", "conn", "data", "pair", "unpair", "clear", "svc", "svcdone", "other"]))
-        m = {"k": k, "addr": draw(st.sampled_from(ADDRS)), "handle": draw(st.sampled_from([1, 2]))}
+        m = {"k": k, "addr": draw(st.sampled_from(ADDRS)), "handle": draw(st.sampled_from([0, 1, 2]))}
     if m["k"] == "read":
         m["data"] = draw(st.sampled_from(["", "00", "cafe"]))
     if m["k"] == "conn":
@@ -542,7 +542,7 @@ def enumerated(tier):
         base = {"id": "op0", "kind": k, "addr": A, "t": 2, "timeout": 1, "handle": 1, "dtimeout": 1, "flavour": "v1", "address_type": None, "end": "stop"}
         yield {"noise": False, "ops": [base], "chunks": []}
         for m in singles:
-            for addr, handle in ((A, 1), (B, 1), (A, 2)):
+            for addr, handle in ((A, 1), (B, 1), (A, 2), (A, 0)):
                 mm = {**m, "addr": addr, "handle": handle}
                 yield {"noise": False, "ops": [base], "chunks": [{"t": 9, "msgs": [mm]}]}
                 # the same message followed, in the same chunk, by a connection change for the address
